@@ -8,13 +8,14 @@ modify_file_in_place that is False after _initialize and assigned True elsewhere
 
   (1) the refusal dominates every write of modify_file_in_place to the image file and to the record;
   (2) every method that marks the metadata stale (assigns `self._needs_reshuffle = True`, the same computed set
-      SA-RESHUFFLE.flag uses) assigns the guard True on every normal path on which a non-zero amount of bytes is
-      accounted.  (Until fix 8f3e05d the record position was derived from the cached per-child offsets, which a
-      zero-byte edit - hard link, symlink, empty file - shifts; the rule then demanded *every* path, and
-      seeded/C17c broke the property.  Since that fix the position is the one the record was found at, a zero-byte
-      edit moves no extent, and C17c no longer breaks anything: its demo passes.  Demanding the guard there would
-      now be an alarm on code where the property holds, so the zero-amount branch of a test on the method's own
-      byte counts is exempt; a guard made conditional on anything else is still reported);
+      SA-RESHUFFLE.flag uses) assigns the guard True on *every* normal path - "nothing was added, so nothing
+      moved" is not a valid shortcut: once the stale mark is set the next consistency point runs the extent
+      assignment, and on an image that another tool laid out differently that moves every file in memory, bytes
+      added or not (witness: seeded/C17c/demo_foreign_layout.py.  For a while this clause exempted the zero-byte
+      branch, because after fix 8f3e05d the agent's own demo of C17c, which only uses images pycdlib laid out, passes;
+      a self-test twin written for clause (2b) showed that the exemption was wrong);
+  (2b) the recomputation pass itself is only called because changes are pending (`if self._needs_reshuffle:`), in a
+      method that raises the guard on that path, or while an image is being set up;
   (3) the guard is lowered only where the object is re-initialised.
 """
 import ast
@@ -78,29 +79,9 @@ def guard_layout(ctx):
             nmark += 1
             fg = ctx.cfg(f)
 
-            fparams = set(p.lstrip('*') for p in f.params) - {'self'}
-
-            def amount_test(node):
-                # `if <sum of the byte counts this method was given> > 0` (or != 0, or the bare sum): with nothing
-                # added or removed no extent moves, and since the record position comes from the opened image
-                # (orig_offset) the in-place write is right without the guard - only the branch with a non-zero
-                # amount has to raise it
-                if node.kind != 'test':
-                    return False
-                t = node.ast
-                names = set(x.id for x in ast.walk(t) if isinstance(x, ast.Name))
-                if not names or not names <= fparams:
-                    return False
-                if isinstance(t, ast.Compare) and len(t.ops) == 1 and isinstance(t.ops[0], (ast.Gt, ast.NotEq)) and \
-                        isinstance(t.comparators[0], ast.Constant) and t.comparators[0].value == 0:
-                    return True
-                return isinstance(t, (ast.Name, ast.BinOp))
-
             def tr(node, st, lab):
                 if lab in ('exc', 'callexc'):
                     return st
-                if lab == 'F' and amount_test(node):
-                    return None        # the zero-amount branch is not an obligation
                 s = node.stmt
                 if node.kind == 'stmt' and isinstance(s, ast.Assign) and any(norm(t) == 'self.' + attr for t in s.targets) and \
                         isinstance(s.value, ast.Constant) and s.value.value is True:
@@ -109,11 +90,39 @@ def guard_layout(ctx):
             IN = fg.forward(False, tr, lambda a, b: a and b)
             ok = bool(IN.get(fg.exit.id))
             obs.append(Ob('SA-GUARD.layout', '%s|raises self.%s on every path' % (f.qual, attr), ok, ctx.loc(f, marks[0]),
-                          '' if ok else '%s marks the layout stale but has a normal path, not conditioned on a zero byte count, on which self.%s stays False: '
+                          '' if ok else '%s marks the layout stale but has a normal path on which self.%s stays False: '
                           'after such an edit extents have moved, modify_file_in_place is accepted and writes the new content and the file entries at sectors that '
                           'belong to other data in the opened file' % (f.qual, attr)))
         if nmark < 2:
             raise AnalysisError('anchor-vanished: methods that assign self._needs_reshuffle = True (%d)' % nmark)
+        # (2b) the recomputation pass itself moves extents (on an image mastered by another tool: all of them).  Every call
+        # of it runs because changes are pending (`if self._needs_reshuffle:` - those changes raised the guard), or in a
+        # method that raises the guard on that path, or while a new image is being set up (new / open*).
+        pass_name = '_reshuffle_extents'
+        for name, f in sorted(pc.methods.items()):
+            if name in ('new', 'open', 'open_fp', '_open_fp', pass_name):
+                continue
+            fg = None
+            for cnode in ctx.own_nodes(f):
+                if not (isinstance(cnode, ast.Call) and isinstance(cnode.func, ast.Attribute) and cnode.func.attr == pass_name and norm(cnode.func.value) == 'self'):
+                    continue
+                st = ctx.enclosing_stmt(f, cnode)
+                from .. import expand as ex
+                pending = any(pol and 'self._needs_reshuffle' in [norm(x) for x in ast.walk(test)] for test0, pol0, _a in ex.conditions(ctx, f, st, True)
+                              for test, pol in ex.conjuncts(test0, pol0))
+                ok = pending
+                if not ok:
+                    if fg is None:
+                        fg = ctx.cfg(f)
+                        fdom, fpdom = fg.dominators(), fg.dominators(post=True)
+                    sn = fg.node_of(st)
+                    raises_ = [n2 for n2 in fg.nodes if n2.kind == 'stmt' and isinstance(n2.stmt, ast.Assign) and any(norm(t) == 'self.' + attr for t in n2.stmt.targets)
+                               and isinstance(n2.stmt.value, ast.Constant) and n2.stmt.value.value is True]
+                    ok = sn is not None and any(r.id in fdom.get(sn.id, ()) or r.id in fpdom.get(sn.id, ()) for r in raises_)
+                obs.append(Ob('SA-GUARD.layout', '%s|%s() under pending changes or with the guard raised' % (f.qual, pass_name), ok, ctx.loc(f, cnode),
+                              '' if ok else '%s runs the recomputation pass unconditionally and does not raise self.%s: on an image that was just opened (and that another tool '
+                              'laid out differently) every extent is reassigned in memory while the file on disk stays as it is; a following modify_file_in_place is '
+                              'accepted and writes the new content at another file\'s sectors' % (f.qual, attr)))
         # (3) lowered only at re-initialisation
         for w in effects.writers_of(ctx, PC, attr):
             if isinstance(w.value, ast.Constant) and w.value.value is True:
